@@ -55,16 +55,19 @@ def _run(args):
 
 def cases(ctx):
     emb = ctx.embedding
-    sigma, n = (progs.SIGMA7, 4) if ctx.quick else (progs.SIGMA7, 5)
+    sigma, n = (progs.SIGMA8, 4) if ctx.quick else (progs.SIGMA8, 5)
     for kind in ('futures', 'spot'):
         P = progs.programs(emb[1], emb[2], kind)
         for fast in (False, True):
             for pname, prog in P:
                 for w in progs.words(sigma, n):
-                    if ctx.quick and 'FLAT' in w and not (fast and kind == 'futures'):
+                    if ctx.quick and 'FLAT' in w and not (fast and kind == 'futures' and 'DOJI' not in w):
                         continue        # quick: words with a flat minute only where they matter most (intra-chunk gaps of the fast simulator)
+                    if ctx.quick and 'DOJI' in w and not (not fast and kind == 'futures'):
+                        continue        # quick: words with a doji (open == close, wicks on both sides) in the candle-by-candle futures sessions
                     yield (w, pname, prog, kind, fast, emb)
     # two symbols sharing one wallet (second one on the mirrored word), and a 5-minute fast chunk
+    sigma = progs.SIGMA7
     P = progs.programs(emb[1], emb[2], 'futures')
     for fast in (False, True):
         for i, (pname, prog) in enumerate(P):
@@ -106,7 +109,7 @@ def run(ctx):
     cov['evaluations'] = len(allc)
     cov['rule'] = ('all candle words x programs x {futures, spot} x {normal, fast}; a session is non-trivial when at least one resting order was filled '
                    'AND at least one resting order survived a whole matching phase (both clauses of the property were exercised)')
-    sigma, n = (progs.SIGMA7, 4) if ctx.quick else (progs.SIGMA7, 5)
+    sigma, n = (progs.SIGMA8, 4) if ctx.quick else (progs.SIGMA8, 5)
     cov['bounds'] = {'alphabet': {k: progs.SHAPES[k] for k in sigma}, 'word_length': n, 'lead_in': 2,
                      'programs': [p for p, _ in progs.programs(1, 1, 'futures')], 'simulators': ['normal 1m', 'fast 3m chunks', 'fast 5m chunks'], 'two_symbol_sessions': 'every program paired with another one on the mirrored word (word length n-1)'}
     ctx.sample({'word': list(allc[0][0]), 'program': allc[0][1], 'kind': allc[0][3], 'fast': allc[0][4]})
